@@ -19,7 +19,8 @@ EXPLANATION = ("D1 scope on windows = is_tenv and bounds in {EXTERIOR, GROUND}, 
                "D3 per-orientation and global accumulators receive the same area-weighted terms and are divided by the matching area; D4 every division is guarded; "
                "D5 the table lookup sums beam + diffuse of July for the model's zone")
 DECIDED = ["D1 scope", "D2 gain term, chains, defaults, orientation", "D3 accumulators and means", "D4 finite without such windows (division guards)", "D5 July irradiation lookup",
-           "D6 accumulation loops end only on iterator exhaustion; the F_sh;obst override reaches the indicator unchanged"]
+           "D6 accumulation loops end only on iterator exhaustion; the F_sh;obst override reaches the indicator unchanged (and_then or map: an entry without the field means no override)",
+           "D7 the orientation and tilt classifier tables (shared with C11)"]
 UNDECIDED = ["numeric agreement on real models"]
 ASSUMPTIONS = ["C20 establishes that the table has all 9 orientations for all 32 zones, so the lookup's unwrap() cannot fail"]
 LEVEL_TEXT = ("Formula, scope and guard audit: the window scope is evaluated on all 8 combinations, the gain term and the twelve accumulator updates are normalised and "
